@@ -5,6 +5,7 @@ import (
 	"errors"
 	"fmt"
 	"reflect"
+	"sort"
 	"strings"
 
 	"github.com/graphql-go/graphql/gqlerrors"
@@ -183,7 +184,8 @@ func dethunkMapWithBreadthFirstTraversal(finalResults map[string]interface{}) {
 }
 
 func dethunkMapBreadthFirst(m map[string]interface{}, dethunkQueue *dethunkQueue) {
-	for k, v := range m {
+	for _, k := range sortedResultKeys(m) {
+		v := m[k]
 		if f, ok := v.(func() interface{}); ok {
 			m[k] = f()
 		}
@@ -214,8 +216,21 @@ func dethunkListBreadthFirst(list []interface{}, dethunkQueue *dethunkQueue) {
 // in the map values and replacing each thunk with that thunk's return value. This is needed
 // to conform to the graphql-js reference implementation, which requires serial (depth-first)
 // implementations for mutation selects.
+// sortedResultKeys returns the response keys of a result map in a fixed
+// order, so that deferred work (and the errors it reports) does not depend
+// on map iteration order.
+func sortedResultKeys(m map[string]interface{}) []string {
+	keys := make([]string, 0, len(m))
+	for k := range m {
+		keys = append(keys, k)
+	}
+	sort.Strings(keys)
+	return keys
+}
+
 func dethunkMapDepthFirst(m map[string]interface{}) {
-	for k, v := range m {
+	for _, k := range sortedResultKeys(m) {
+		v := m[k]
 		if f, ok := v.(func() interface{}); ok {
 			m[k] = f()
 		}
